@@ -4,6 +4,9 @@ TLC (MC_C05) enumerates every tree with <= MaxOps operator/bracket nodes, checks
 SpecParse(Print*(t)) = t for four reference renderings, and exports tree + renderings.  Here every
 rendering is parsed by the real lexer+parser and the projected AST compared with the tree.
 """
+import json
+import os
+
 import project
 import tlc
 
@@ -27,11 +30,51 @@ def check_records(ctx, recs, label):
                         "fullbws": project.text(r["fullbws"])})
 
 
+def validate_reductions(ctx, recs, stride):
+    """trace validation of the real parser's node-creating reductions against Reduce!ReduceTrace (Trace_Reduce)"""
+    import lrtrace
+    traces, info = [], {}
+    for i, r in enumerate(recs):
+        if r.get("k") != "case" or i % stride:
+            continue
+        for mode in ("min", "fullbws"):
+            s = project.text(r[mode])
+            try:
+                tree, events = lrtrace.reductions(s)
+            except Exception:  # noqa  (rejections are reported by check_records)
+                continue
+            cid = len(traces) + 1
+            traces.append({"id": cid, "tree": tree, "events": events})
+            info[cid] = (s, events)
+    if not traces:
+        return
+    os.makedirs(tlc.BUILD, exist_ok=True)
+    path = os.path.join(tlc.BUILD, "trace_reduce_%d.json" % os.getpid())
+    with open(path, "w") as f:
+        json.dump(traces, f)
+    try:
+        res = tlc.run("Trace_Reduce", env={"TRACE_FILE": path}, check_count=False,
+                      keep_lines=lambda r: r.get("k") == "verdict", timeout=7000, heap="12g")
+    finally:
+        os.unlink(path)
+    ctx.add_tlc(res)
+    seen = {r["id"]: r for r in res.records}
+    if len(seen) != len(traces):
+        raise tlc.MachineryError("Trace_Reduce: %d verdicts for %d traces" % (len(seen), len(traces)))
+    for cid, v in seen.items():
+        ctx.traces += 1
+        if v["v"] != "ok":
+            s, events = info[cid]
+            ctx.violation({"kind": "reduction-trace-rejected", "verdict": v["v"]}, {"text": s, "at": v["at"], "events": events})
+    ctx.notes["reduction_traces_validated"] = ctx.notes.get("reduction_traces_validated", 0) + len(traces)
+
+
 def run(ctx):
     ctx.rule = ("every expression tree with <= MaxOps operator/bracket nodes (derivation machine MC_C05); "
                 "each is rendered min/full/bws/fullbws by the spec printer and parsed by the real parser; "
                 "non-trivial = distinct tree with >= 2 operator nodes")
     ctx.trusted = ["spec/OData.tla precedence table + printers (checked against the spec parser by TLC)",
+                   "spec/Reduce.tla (order of node-creating reductions prescribed by the grammar's structure)",
                    "harness/project.py AST projection"]
     keep = lambda r: r.get("k") == "case"
     if ctx.tier == "quick":
@@ -40,11 +83,13 @@ def run(ctx):
         if res.violation:
             ctx.violation({"kind": "model", "inv": res.violation}, {"tlc": res.raw_tail[-2000:]})
         check_records(ctx, res.records, "wide2")
+        validate_reductions(ctx, res.records, 4)
         ctx.exhaustive = True
     else:
         res = tlc.run("MC_C05", constants={"MaxOps": 2, "Wide": "TRUE"}, keep_lines=keep)
         ctx.add_tlc(res)
         check_records(ctx, res.records, "wide2")
+        validate_reductions(ctx, res.records, 1)
         res = tlc.run("MC_C05", constants={"MaxOps": 3, "Wide": "FALSE"}, keep_lines=keep, timeout=7200)
         ctx.add_tlc(res)
         if res.violation:
